@@ -262,6 +262,7 @@ def gen_cases(ctx):
         c["sens_type"] = rng.choice(["rss_estimate", "rss_estimate", "unit"])
         c["recon"] = rng.choice(["rss", "complex", "complex_mod", "sense", "sense_mod"]) if c["sens"] else rng.choice(["rss", "rss", "complex", "complex_mod", "sense"])
         c["seed"] = rng.randrange(10**6)
+        c["full_mask"] = rng.random() < 0.12
         cases.append(c)
     return cases
 
@@ -280,7 +281,8 @@ def build_pipeline(c, supervised=True, **extra):
     from direct.data import mri_transforms as M
     from direct.data.transforms import fft2, ifft2
 
-    mf = build_masking_function("FastMRIRandom", accelerations=[3], center_fractions=[0.25]) if c["mask"] else None
+    # acceleration 1 samples everything: masked k-space and k-space then hold the same values
+    mf = build_masking_function("FastMRIRandom", accelerations=[1 if c.get("full_mask") else 3], center_fractions=[0.25]) if c["mask"] else None
     kw = dict(forward_operator=fft2, backward_operator=ifft2, mask_func=mf,
               crop=(c["h"] - 2, c["w"] - 3) if c["crop"] else None, rescale=(c["h"], c["w"] + 2) if c["rescale"] else None, pad=(c["h"] + 3, c["w"] + 4) if c["pad"] else None,
               padding_eps=0.0001 if c["zero_pad"] else 0.0, estimate_body_coil_image=c["body"], estimate_sensitivity_maps=c["sens"], sensitivity_maps_type=M.SensitivityMapType(c["sens_type"]),
@@ -406,7 +408,7 @@ def oracles(ctx, deep):
         if not c["mask"] or c["scaling"] is None:
             continue
         ssl = rng.random() < 0.25
-        short = {k: c[k] for k in FLAGS + ["scaling", "percentile", "coils", "h", "w", "three", "sens_type", "recon", "seed"]}
+        short = {k: c[k] for k in FLAGS + ["scaling", "percentile", "coils", "h", "w", "three", "sens_type", "recon", "seed", "full_mask"]}
         short["ssl"] = ssl
         extra = {}
         if ssl:
